@@ -505,6 +505,18 @@ fn mutate(g: &mut Rng, base: &RawRequest) -> (String, RawRequest) {
 
 fn random_request(g: &mut Rng) -> (String, RawRequest) {
     let method = *g.pick(&["GET", "PUT", "POST", "DELETE", "HEAD", "OPTIONS", "PATCH", "X-CUSTOM"]);
+    // the request-target forms that are not origin-form: asterisk-form, authority-form, absolute-form
+    if g.chance(1, 12) {
+        let (m, u) = *g.pick(&[
+            ("OPTIONS", "*"), ("CONNECT", "bucket.example.com:443"), ("CONNECT", "127.0.0.1:9000"), ("GET", "*"), ("GET", "http://bucket.example.com"), ("GET", "http://example.com:9000/b/k?acl"),
+            ("PUT", "https://[::1]:9000/b/%zz"), ("GET", "//b//k"), ("GET", "/?"), ("DELETE", "http://example.com/?delete"), ("POST", "http://a.b.example.com:1/?uploads"),
+        ]);
+        let mut r = RawRequest::new(m, u);
+        for _ in 0..g.usize_below(3) {
+            r.headers.push(((*g.pick(HOSTILE_HEADERS)).to_owned(), hostile_value(g)));
+        }
+        return ("request-target-form".into(), r);
+    }
     let mut uri = String::from("/");
     for _ in 0..g.usize_below(4) {
         uri.push_str(*g.pick(&["b", "bucket", "a.b", "%", "%41", "..", "é", "/", "k", "-", "_", "A", "1.2.3.4", "xn--"]));
